@@ -25,6 +25,23 @@ class AnchorMissing(AnalysisError):
 REPO_ROOT = os.environ.get("VERIF_REPO", "/repo")
 
 
+def _normalise_tests(tree):
+    """Shape normalisation applied to every module before any rule looks at it (positions are kept):
+    `if not C: A else: B`  (two non-empty arms, B not an elif chain)  becomes  `if C: B else: A`, and `not not C` becomes
+    C.  Which arm a programmer writes first is not a property of the program; rules are written against the positive
+    form only."""
+    for n in ast.walk(tree):
+        if isinstance(n, (ast.If, ast.IfExp)):
+            while isinstance(n.test, ast.UnaryOp) and isinstance(n.test.op, ast.Not) and isinstance(n.test.operand, ast.UnaryOp) and isinstance(n.test.operand.op, ast.Not):
+                n.test = n.test.operand.operand
+        if isinstance(n, ast.If) and n.orelse and isinstance(n.test, ast.UnaryOp) and isinstance(n.test.op, ast.Not) and not (len(n.orelse) == 1 and isinstance(n.orelse[0], ast.If)):
+            n.test = n.test.operand
+            n.body, n.orelse = n.orelse, n.body
+        elif isinstance(n, ast.IfExp) and isinstance(n.test, ast.UnaryOp) and isinstance(n.test.op, ast.Not):
+            n.test = n.test.operand
+            n.body, n.orelse = n.orelse, n.body
+
+
 class Module:
     def __init__(self, rel, src):
         self.rel = rel
@@ -33,6 +50,7 @@ class Module:
             self.tree = ast.parse(src, filename=rel)
         except SyntaxError as e:
             raise AnalysisError(f"{rel}: does not parse: {e}")
+        _normalise_tests(self.tree)
         self._defs = None
         self._imports = None
 
